@@ -24,7 +24,7 @@ ASSUMPTIONS = ["handlers of focus events only record them", "the root window is 
 TRUSTED = ["model coq/WinDefs.v (take_focus, show/hide/close side effects, do_restore), spec coq/WinSpec.v (cursor_spec, focus_spec)"]
 
 PROFILE = {"new": 10, "close": 4, "show": 8, "hide": 8, "restack": 6, "geom": 8, "expose": 2, "flush": 14,
-           "scroll": 2, "focus": 16, "cursor": 14, "notify": 6, "dead": 1}
+           "scroll": 2, "focus": 16, "cursor": 14, "notify": 6, "dead": 1, "tresize": 3}
 
 BASES = [
     ["N 1 0 0 0 3 4 0", "N 2 1 1 1 2 2 0", "N 3 0 1 2 2 3 2"],
